@@ -241,7 +241,8 @@ def run(ctx):
     # grouped: inner elements are Record._pack tuples, destructured as (identifier, values)
     gbranch = next((u for u in ubs if u.role == "grouped"), None)
     if gbranch is not None:
-        inner = [n for n in ast.walk(gbranch.if_node) if isinstance(n, ast.For)]
+        # loops and comprehensions alike (a comprehension's generator has .target / .iter too)
+        inner = [n for n in ast.walk(gbranch.if_node) if isinstance(n, (ast.For, ast.comprehension))]
         rp = prog.func("flow.record.base.Record._pack")
         ok = bool(inner) and (any(isinstance(a, ast.Assign) and isinstance(a.targets[0], ast.Tuple) and len(a.targets[0].elts) in return_arities(rp)
                                   for l in inner for a in ast.walk(l)) or
